@@ -24,6 +24,9 @@ Match(e) ==
      /\ ObsRet(e.heldP1) = setter /\ ObsRet(e.heldP2) = setter
      /\ ObsRet(e.overP1) = setter /\ ObsRet(e.overP2) = setter
      /\ e.keptP1 = (IF ok THEN IntV(v) ELSE IntV(12288)) /\ e.keptP2 = (IF ok THEN IntV(v) ELSE IntV(12288))
+     \* instances are independent: claims-sets given v by their own setter (before / after) still hold it after another
+     \* claims-set's stored value was overwritten in place
+     /\ ObsRet(e.indP1) = after /\ ObsRet(e.indP2) = after /\ ObsRet(e.indLate) = after
 Init == l = 1 /\ bad = <<>>
 Next == /\ l <= Len(Trace) /\ l' = l + 1
         /\ bad' = IF Match(Trace[l]) THEN bad ELSE Append(bad, l)
